@@ -763,3 +763,17 @@ GROUPS["p11"] += [
       "    ) -> Result<()> {\n        let text = text.to_owned();\n        let text = text.as_str();\n        self.pull_config().await;\n\n        // Copy necessary configuration to avoid holding lock.",
       None),
 ]
+
+# C09: open buffers snapshotted before the per-document loop (the shape of seeded/C09-d) / read when the document's turn comes
+GROUPS["g23"] += [
+    E("c09-snapshot-before-loop", ["C09"], "harper-ls/src/backend.rs",
+      "            doc_lock.keys().cloned().collect()\n        };\n\n        for url in urls {\n            self.refresh_document(&url)\n                .await",
+      "            doc_lock.keys().cloned().collect()\n        };\n        let texts: Vec<Option<String>> = {\n            let doc_lock = self.doc_state.lock().await;\n            urls.iter().map(|u| doc_lock.get(u).map(|d| d.document.get_full_string())).collect()\n        };\n\n        for (url, text) in urls.into_iter().zip(texts) {\n            self.update_document(&url, text.as_deref().unwrap_or_default(), None)\n                .await",
+      "R-C09-fresh:<Backend@LanguageServer>::did_change_configuration"),
+]
+GROUPS["p11"] += [
+    E("p-c09-read-inside-loop", ["C09"], "harper-ls/src/backend.rs",
+      "        for url in urls {\n            self.refresh_document(&url)\n                .await",
+      "        for url in urls {\n            let text = self.doc_state.lock().await.get(&url).map(|d| d.document.get_full_string());\n            let Some(text) = text else { continue };\n            self.update_document(&url, &text, None)\n                .await",
+      None),
+]
